@@ -503,6 +503,10 @@ OBLIGATIONS = [
        functions=("odc.geo.overlap.compute_reproject_roi", "odc.geo.overlap.native_pix_transform", "odc.geo.overlap.GbxPointTransform.__call__", "odc.geo.overlap.GbxPointTransform.back", "odc.geo.overlap._relative_rois", "odc.geo.roi.roi_from_points"),
        bounds="destination 8x4 pixels of 45 degrees, overhang on the north-west or south-east corner 0..1 degree per axis (symbolic); source pixel 45/k, origin and size symbolic (<= 2^31-1); padding None/0/symbolic, align 0/4",
        stubs=("NumpyModel", "CRS.transformer_to_crs: coordinates coincide, geographic input outside +-180/+-90 gives non-finite output (PROJ's contract); PROJ itself outside the claim", "get_scale_at_point replaced by its contract (R7 checks it)"), setup=setup, timeout_ms=30000, deadline_s=2400),
+    Ob("R9_near_unit_scale", h_reproject, fixed(dict(kx="10009/10000", ky="1", mx=1, my=1, padmode="none", align=0, pin="y:aligned")),
+       descr="same CRS, destination pixels 0.09 % larger than the source's (inside the paste tolerance stol = 1e-3): the planner reports paste and plans with the scale snapped to 1; needed pixels must still be kept whatever the image width",
+       functions=("odc.geo.overlap.compute_reproject_roi", "odc.geo.overlap._can_paste", "odc.geo.math.snap_affine", "odc.geo.overlap.box_overlap"),
+       bounds="relative scale 1.0009 along x; origins, image sizes (<= 2^31-1), probe pixel symbolic", stubs=("NumpyModel",), setup=setup, timeout_ms=30000, deadline_s=600),
     Ob("R6_separated", h_separated, lambda tier, rng: _sep_cfgs(tier), descr="rasters separated by more than the padding margin: both regions have zero area",
        functions=("odc.geo.overlap.compute_reproject_roi",), bounds="separation along one axis, either side (symbolic flag)", stubs=("NumpyModel",), setup=setup, timeout_ms=30000),
 ]
